@@ -68,7 +68,9 @@ namespace GeographicLib {
           / atan2(        ty - tx , 1 +         tx * ty);
       else {
         tx = 1/tx; ty = 1/ty;
-        r = atan2(base::_fm1 * (ty - tx), base::_e2m1 + tx * ty)
+        r = tx == ty ?          // reciprocals of distinct tangents can coincide
+          base::_fm1 * (1 + tx*tx) / (base::_e2m1 + tx*tx) :
+          atan2(base::_fm1 * (ty - tx), base::_e2m1 + tx * ty)
           / atan2(        ty - tx ,   1   + tx * ty);
       }
     }
